@@ -4,7 +4,7 @@ import z3
 
 from . import ty as T
 from .ty import SV
-from .engine import (Unsupported, ContractError, fresh_name, zand, zor, State, Out, common_prefix, locate,
+from .engine import (Unsupported, ContractError, DeadPath, fresh_name, zand, zor, State, Out, common_prefix, locate,
                      number_nodes, LOGGERS)
 from .vals import (is_none, none_sv, unify, coerce, ite, mk_seq, seq_len, seq_arr, seq_eq, nsel)
 from .expr import ExprMixin
@@ -268,12 +268,25 @@ class Exec(ExprMixin, CallMixin):
 
     def mod_covers(self, m, key):
         f = m.field
+        eng = self.eng
         if key[0] in ('f', 'has'):
-            return f == key[1]
-        if key[0] in ('len', 'elem'):
-            return f == 'list' or f.startswith('list')
+            return f == key[1] or f == key[1].partition('@')[0]
+        if key[0] == 'len':
+            return f.startswith('list')
+        if key[0] == 'elem':
+            if not f.startswith('list'):
+                return False
+            if ':' not in f:
+                return True
+            return eng.hkey(eng.k_elem(eng.ptype(f.split(':', 1)[1]))) == eng.hkey(key)
         if key[0] in ('dhas', 'dval'):
-            return f == 'dict' or f.startswith('dict')
+            if not f.startswith('dict'):
+                return False
+            if ':' not in f:
+                return True
+            kt, vt = [eng.ptype(x) for x in f.split(':', 1)[1].split(',')]
+            want = eng.k_dhas(kt, vt) if key[0] == 'dhas' else eng.k_dval(kt, vt)
+            return eng.hkey(want) == eng.hkey(key)
         return False
 
     def frame_obligations(self, st, where):
@@ -327,7 +340,12 @@ class Exec(ExprMixin, CallMixin):
         m = getattr(self, 'st_' + type(s).__name__, None)
         if m is None:
             raise Unsupported('statement %s at line %s' % (type(s).__name__, s.lineno))
-        return m(s, st)
+        try:
+            return m(s, st)
+        except DeadPath:
+            out = Out()
+            self.take_exits(out)
+            return out
 
     def simple(self, st):
         out = Out()
@@ -410,7 +428,7 @@ class Exec(ExprMixin, CallMixin):
             elif isinstance(t, ast.Attribute):
                 obj = self.ev(t.value, st)
                 self.nonnull(obj, st)
-                kh = self.eng.k_has(t.attr)
+                kh = self.eng.k_has(self.eng.fid(t.attr, obj.t.cls if isinstance(obj.t, T.Ref) else None))
                 self.raise_if(st, z3.Not(z3.Select(st.h(kh), obj.z)), 'AttributeError', 'del attribute')
                 st.seth(kh, z3.Store(st.h(kh), obj.z, z3.BoolVal(False)))
             elif isinstance(t, ast.Name):
@@ -487,6 +505,9 @@ class Exec(ExprMixin, CallMixin):
                 s = self.as_seq(v, st)
                 self.raise_if(st, seq_len(s) != len(t.elts), 'ValueError', 'unpack')
                 items = [self.loaded(SV(s.t.elem, z3.Select(seq_arr(s), I(i))), st) for i in range(len(t.elts))]
+            elif isinstance(v.t, (T._Int, T._Bool, T._Real, T._None)):
+                self.raise_if(st, z3.BoolVal(True), 'TypeError', 'unpack of non-iterable')
+                raise DeadPath()
             else:
                 h = self.unpack_hook(t, v, st)
                 if h is None:
@@ -520,10 +541,11 @@ class Exec(ExprMixin, CallMixin):
         if not obj.t.reflike:
             raise Unsupported('attribute store on %s' % obj.t)
         self.nonnull(obj, st)
-        ft = self.eng.field_type(attr)
-        k = self.eng.k_field(attr)
+        fid = self.eng.fid(attr, obj.t.cls if isinstance(obj.t, T.Ref) else None)
+        ft = self.eng.field_type(fid)
+        k = self.eng.k_field(fid)
         st.seth(k, z3.Store(st.h(k), obj.z, coerce(v, ft).z))
-        kh = self.eng.k_has(attr)
+        kh = self.eng.k_has(fid)
         if kh in st.heap or self.eng.hkey(kh) in self.eng._init_heap:
             st.seth(kh, z3.Store(st.h(kh), obj.z, z3.BoolVal(True)))
 
@@ -658,6 +680,8 @@ class Exec(ExprMixin, CallMixin):
                 normals.append(o.normal)
         for est, exc, where in o.excs:
             handled = False
+            if self.infeasible(est, z3.BoolVal(True)):
+                continue        # the raising path is unreachable
             for h in s.handlers:
                 if self.handler_matches(h, exc):
                     hs = est
@@ -701,9 +725,10 @@ class Exec(ExprMixin, CallMixin):
         for root in nodes:
             for n in ast.walk(root):
                 if isinstance(n, ast.Attribute) and isinstance(n.ctx, (ast.Store, ast.Del)):
-                    keys.add(('f', n.attr))
-                    if self.has_live(('has', n.attr), st):
-                        keys.add(('has', n.attr))
+                    for fid in self.safe_fids(n.attr):
+                        keys.add(('f', fid))
+                        if self.has_live(('has', fid), st):
+                            keys.add(('has', fid))
                 if isinstance(n, ast.Subscript) and isinstance(n.ctx, (ast.Store, ast.Del)):
                     all_lists = all_dicts = True
                 if isinstance(n, ast.AugAssign):
@@ -723,9 +748,10 @@ class Exec(ExprMixin, CallMixin):
                             elif m.field.startswith('dict'):
                                 all_dicts = True
                             else:
-                                keys.add(('f', m.field))
-                                if self.has_live(('has', m.field), st):
-                                    keys.add(('has', m.field))
+                                for fid in self.safe_fids(m.field):
+                                    keys.add(('f', fid))
+                                    if self.has_live(('has', fid), st):
+                                        keys.add(('has', fid))
                         if callee.allocates:
                             keys.add(('alloc',))
                         for gname in getattr(callee, 'ghost_sets', {}):
@@ -740,9 +766,10 @@ class Exec(ExprMixin, CallMixin):
                                 elif m.field.startswith('dict'):
                                     all_dicts = True
                                 else:
-                                    keys.add(('f', m.field))
-                                    if self.has_live(('has', m.field), st):
-                                        keys.add(('has', m.field))
+                                    for fid in self.safe_fids(m.field):
+                                        keys.add(('f', fid))
+                                        if self.has_live(('has', fid), st):
+                                            keys.add(('has', fid))
                     if isinstance(f, ast.Name) and f.id in ('list', 'dict'):
                         keys.add(('alloc',))
                 if isinstance(n, (ast.List, ast.Dict, ast.ListComp)):
@@ -752,6 +779,12 @@ class Exec(ExprMixin, CallMixin):
                 if isinstance(n, ast.Subscript) and isinstance(n.slice, ast.Slice):
                     keys.add(('alloc',))
         return keys, all_lists, all_dicts
+
+    def safe_fids(self, name):
+        try:
+            return self.eng.fids(name)
+        except Unsupported:
+            return [name]
 
     def has_live(self, key, st):
         return key in st.heap or self.eng.hkey(key) in self.eng._init_heap
@@ -804,7 +837,8 @@ class Exec(ExprMixin, CallMixin):
         for k in keys:
             if k == ('alloc',):
                 continue
-            if k[0] in ('f', 'has') and k[1] not in self.eng.prop.fields:
+            if k[0] in ('f', 'has') and k[1].partition('@')[0] not in self.eng.prop.field_variants \
+                    and k[1] not in self.c.fields:
                 continue
             full = self.full_key(k)
             if full is None:
@@ -1115,7 +1149,7 @@ class Exec(ExprMixin, CallMixin):
     def dict_snapshot(self, d, mode, st):
         """Sequence of the dict's keys / values / items at this moment: distinct keys covering exactly the key set."""
         kt, vt = d.t.k, d.t.v
-        has = z3.Select(st.h(self.eng.k_dhas(kt)), d.z)
+        has = z3.Select(st.h(self.eng.k_dhas(kt, vt)), d.z)
         val = z3.Select(st.h(self.eng.k_dval(kt, vt)), d.z)
         n = z3.Int(fresh_name('dn'))
         ks = z3.Const(fresh_name('dks'), z3.ArraySort(z3.IntSort(), kt.sort()))
@@ -1284,11 +1318,13 @@ class Exec(ExprMixin, CallMixin):
             return [eng.k_len(), eng.k_elem(et)]
         if f.startswith('dict'):
             kt, vt = [eng.ptype(x) for x in f.split(':', 1)[1].split(',')]
-            return [eng.k_dhas(kt), eng.k_dval(kt, vt)]
-        out = [eng.k_field(f)]
-        kh = eng.k_has(f)
-        if eng.hkey(kh) in eng._init_heap or kh in st.heap:
-            out.append(kh)
+            return [eng.k_dhas(kt, vt), eng.k_dval(kt, vt)]
+        out = []
+        for fid in eng.fids(f):
+            out.append(eng.k_field(fid))
+            kh = eng.k_has(fid)
+            if eng.hkey(kh) in eng._init_heap or kh in st.heap:
+                out.append(kh)
         return out
 
 
